@@ -398,7 +398,22 @@ def check_quantifiers(F, G9, sf):
         if b.crate == 'lib' and b.kind != 'closure' and any(t.startswith('&' + FKC) for t in b.arg_types()) and b.ret_type() == 'bool':
             targets.append(b)
     n = 0
+    # quantifications may sit in local closures of the deciding function (`let any_matches = |fs| fs.iter().any(..)`)
+    owners = {}
+    expanded = []
     for b in targets:
+        expanded.append(b)
+        owners[b.path] = b.path
+        stack = [b]
+        while stack:
+            x = stack.pop()
+            for cl in F.closures_of(x.path):
+                if cl.path not in owners:
+                    owners[cl.path] = b.path
+                    expanded.append(cl)
+                    stack.append(cl)
+    deciding = set()
+    for b in expanded:
         cfg = CFG(b)
         E = ExprBuilder(cfg, fold_named=True)
         G9.fn(b.path)
@@ -422,6 +437,7 @@ def check_quantifiers(F, G9, sf):
             if not decides:
                 continue
             n += 1
+            deciding.add(owners[b.path])
             G9.sites += 1
             src = show(E.operand(t.args[0]))
             kind = re.search(r'FilterKind::(\w+)\{', src)
@@ -431,4 +447,5 @@ def check_quantifiers(F, G9, sf):
                 G9.violation(('quantifier', b.path, m, kind.group(1) if kind else 'x'),
                              '%s decides with `%s(matches)` over the %s filters at %s: the specified rule is "some filter of the kind matches" (any), `%s` changes the decision as soon as several filters of that kind exist' %
                              (b.path, m, kind.group(1) if kind else 'selected', b.loc(t.sp), m), where=b.loc(t.sp))
-    G9.floor('quantifications over filter collections with Filter::matches', n, 5)
+    G9.floor('quantifications over filter collections with Filter::matches', n, 2)
+    G9.floor('deciding functions (filter stage, match_filters) containing such a quantification', len(deciding), 2)
